@@ -50,15 +50,50 @@ OpsFor(c) ==
       \cup {Op(k, x, "none", <<>>, 0, c) : <<k, x>> \in plain \X mine}
       \cup (IF HasFresh THEN {Op(k, x, Fresh, <<>>, 0, c) : <<k, x>> \in conv \X mine} ELSE {})
 
+Sch == UNCHANGED <<cur, yl, nf>>
+CanOp(c) == cli[c].n < MaxOps
+\* one named wrapper per action of Hannibal.tla, so that TLC's coverage statistics are per action
+A_SubmitForce == \E c \in Client : CanOp(c) /\ \E o \in OpsFor(c) : SubmitForce(c, o) /\ Sch
+A_SubmitWait  == \E c \in Client : CanOp(c) /\ \E o \in OpsFor(c) : SubmitWait(c, o) /\ Sch
+A_AwaitBegin  == \E c \in Client : CanOp(c) /\ \E o \in OpsFor(c) : AwaitBegin(c, o) /\ Sch
+A_Query       == \E c \in Client : CanOp(c) /\ \E o \in OpsFor(c) : Query(c, o) /\ Sch
+A_Convert     == \E c \in Client : CanOp(c) /\ \E o \in OpsFor(c) : Convert(c, o) /\ Sch
+A_Upgrade     == \E c \in Client : CanOp(c) /\ \E o \in OpsFor(c) : Upgrade(c, o) /\ Sch
+A_DropH       == \E c \in Client : CanOp(c) /\ \E o \in OpsFor(c) : DropH(c, o) /\ Sch
+A_Detach      == \E c \in Client : CanOp(c) /\ \E o \in OpsFor(c) : Detach(c, o) /\ Sch
+A_JoinBegin   == \E c \in Client : CanOp(c) /\ \E o \in OpsFor(c) : JoinBegin(c, o) /\ Sch
+A_Flushed     == \E c \in Client : Flushed(c) /\ Sch
+A_RespReturn  == \E c \in Client : RespReturn(c) /\ Sch
+A_AwaitReturn == \E c \in Client : AwaitReturn(c) /\ Sch
+A_JoinReturn  == \E c \in Client : JoinReturn(c) /\ Sch
+A_StartedBegin == \E a \in Actor : StartedBegin(a) /\ Sch
+A_ScriptStep  == \E a \in Actor : ScriptStep(a) /\ Sch
+A_StartedEnd  == \E a \in Actor : StartedEnd(a) /\ Sch
+A_Dequeue     == \E a \in Actor : Dequeue(a) /\ Sch
+A_MailboxClosed == \E a \in Actor : MailboxClosed(a) /\ Sch
+A_StopTaken   == \E a \in Actor : StopTaken(a) /\ Sch
+A_PingHandled == \E a \in Actor : PingHandled(a) /\ Sch
+A_HandleBegin == \E a \in Actor : HandleBegin(a) /\ Sch
+A_HandleEnd   == \E a \in Actor : HandleEnd(a) /\ Sch
+A_TimeoutFire == \E a \in Actor : TimeoutFire(a) /\ Sch
+A_RestartTaken == \E a \in Actor : RestartTaken(a) /\ Sch
+A_RestartStopped == \E a \in Actor : RestartStopped(a) /\ Sch
+A_RestartRefresh == \E a \in Actor : RestartRefresh(a) /\ Sch
+A_RestartStarted == \E a \in Actor : RestartStarted(a) /\ Sch
+A_StoppedEnd  == \E a \in Actor : StoppedEnd(a) /\ Sch
+A_Notify      == \E a \in Actor : Notify(a) /\ Sch
+A_Exit        == \E a \in Actor : Exit(a) /\ Sch
+A_Advance     == Advance /\ now < Horizon /\ Sch
+A_Cancel      == /\ "cancel" \in Faults /\ nf < MaxFaults
+                 /\ \E a \in Actor : Cancel(a)
+                 /\ nf' = nf + 1 /\ UNCHANGED <<cur, yl>>
+
 MCNext ==
-  \/ /\ \/ \E c \in Client : cli[c].n < MaxOps /\ \E o \in OpsFor(c) : Issue(c, o)
-        \/ \E c \in Client : ClientCont(c)
-        \/ \E a \in Actor : LoopStep(a)
-        \/ Advance /\ now < Horizon
-     /\ UNCHANGED <<cur, yl, nf>>
-  \/ /\ "cancel" \in Faults /\ nf < MaxFaults
-     /\ \E a \in Actor : Cancel(a)
-     /\ nf' = nf + 1 /\ UNCHANGED <<cur, yl>>
+  \/ A_SubmitForce \/ A_SubmitWait \/ A_AwaitBegin \/ A_Query \/ A_Convert \/ A_Upgrade \/ A_DropH \/ A_Detach
+  \/ A_JoinBegin \/ A_Flushed \/ A_RespReturn \/ A_AwaitReturn \/ A_JoinReturn
+  \/ A_StartedBegin \/ A_ScriptStep \/ A_StartedEnd \/ A_Dequeue \/ A_MailboxClosed \/ A_StopTaken
+  \/ A_PingHandled \/ A_HandleBegin \/ A_HandleEnd \/ A_TimeoutFire \/ A_RestartTaken \/ A_RestartStopped
+  \/ A_RestartRefresh \/ A_RestartStarted \/ A_StoppedEnd \/ A_Notify \/ A_Exit \/ A_Advance \/ A_Cancel
 
 MCSpec == MCInit /\ [][MCNext]_mcvars
 
@@ -82,6 +117,20 @@ ScriptsCore == {<<>>, <<Y>>}
 ScriptsPlain == {<<>>}
 CfgsCore == {Cfg(cap, "restart", 0, FALSE, FALSE, <<<<>>>>, <<Y>>) : cap \in {Unb, 0, 1}}
 CfgsCore2 == {Cfg(cap, "restart", 0, FALSE, FALSE, <<<<>>>>, <<Y>>) : cap \in {Unb, 0, 1, 2}}
+CfgsTwo == {Cfg(cap, "restart", 0, FALSE, FALSE, <<<<>>>>, <<Y>>) : cap \in {Unb, 1}}
+CfgsUnb == {Cfg(Unb, "restart", 0, FALSE, FALSE, <<<<>>>>, <<Y>>)}
+CfgsB1 == {Cfg(1, "restart", 0, FALSE, FALSE, <<<<>>>>, <<Y>>)}
+CfgsOwn == {Cfg(cap, "restart", 0, FALSE, TRUE, <<<<Y>>>>, <<Y>>) : cap \in {Unb, 1}}
+CfgsStrat == {Cfg(Unb, st, 0, FALSE, FALSE, <<<<>>>>, <<Y>>) : st \in {"restart", "recreate", "none"}}
+IK(k1, k2, k3) == [c \in Client |-> [h |-> IF c = "c1" THEN "h1" ELSE IF c = "c2" THEN "h2" ELSE "h3",
+                                     kind |-> IF c = "c1" THEN k1 ELSE IF c = "c2" THEN k2 ELSE k3]]
+InitKindsSC == IK("sender", "caller", "addr")
+InitKindsWeak == IK("wsender", "wcaller", "addr")
+InitKindsOwn == IK("owning", "addr", "waddr")
+InitKindsAW == IK("addr", "waddr", "caller")
+InitKindsCaller == IK("caller", "waddr", "wsender")
+ScriptsStop == {<<>>, <<Eff("ctx_stop", 0, "")>>}
+ScriptsRestart == {<<>>, <<Eff("ctx_restart", 0, "")>>}
 InitKindsAddr == [c \in Client |-> [h |-> IF c = "c1" THEN "h1" ELSE IF c = "c2" THEN "h2" ELSE "h3", kind |-> "addr"]]
 NamesSmall == <<"n1", "n2", "n3">>
 =============================================================================
